@@ -75,6 +75,8 @@ type VC struct {
 	linfo      []lineInfo
 	localCells []localCell
 	ixNames    map[string]string
+	guardCovered map[string]bool
+	errGlobals []string
 	boxFacts   map[string]bool
 }
 
@@ -597,6 +599,8 @@ func (vc *VC) classSortByName(k string) string {
 }
 
 func (vc *VC) mapClass(t types.Type) string {
+	// map objects are shared between a named map type and its underlying type (value conversions): one class per underlying type
+	t = t.Underlying()
 	k := "HM_" + sanitize(types.TypeString(t, nil))
 	if _, ok := vc.classes[k]; !ok {
 		vc.classes[k] = t
@@ -1006,6 +1010,23 @@ func implies(a, b string) string {
 func (vc *VC) oblige(class, label, guard, formula, clause string, props []string, pos string) *Obligation {
 	o := &Obligation{Func: vc.fn, Class: class, Label: label, Props: props, Guard: guard, Formula: formula, Clause: clause, NDecls: len(vc.lines), Pos: pos}
 	vc.obls = append(vc.obls, o)
+	// vacuity guard: the point where the obligation is checked must be reachable under everything assumed so far
+	if guardCoverClasses[class] && guard != "true" {
+		if vc.guardCovered == nil {
+			vc.guardCovered = map[string]bool{}
+		}
+		key := fmt.Sprintf("%d:%s", len(vc.lines), guard)
+		if !vc.guardCovered[key] {
+			vc.guardCovered[key] = true
+			lab := class
+			if label != "" {
+				lab += ":" + siteRe.ReplaceAllString(label, "")
+			}
+			c := &Obligation{Func: vc.fn, Class: "cover-guard", Label: lab, Props: []string{"vacuity"}, Guard: guard, Formula: "false",
+				Clause: "the place where this obligation is checked is reachable under the assumptions made so far: " + clause, NDecls: len(vc.lines), Pos: pos, Expect: "sat"}
+			vc.obls = append(vc.obls, c)
+		}
+	}
 	// vacuity guard: a clause of the form A ==> B is only worth something if A can hold where the clause is checked
 	if coverClasses[class] {
 		if nodes := parseSx(formula); len(nodes) == 1 && !nodes[0].leaf && len(nodes[0].list) == 3 && nodes[0].list[0].atom == "=>" {
@@ -1025,5 +1046,7 @@ func (vc *VC) oblige(class, label, guard, formula, clause string, props []string
 // site counters (#3) are stripped from cover labels: a clause that applies to several call sites is vacuous only if
 // its antecedent is unreachable at all of them
 var siteRe = regexp.MustCompile(`#[0-9]+`)
+
+var guardCoverClasses = map[string]bool{"at-call": true, "onk": true, "nok": true, "post": true, "inv-keep": true, "at-event": true, "pre@call": true}
 
 var coverClasses = map[string]bool{"at-call": true, "onk": true, "nok": true, "post": true, "at-event": true}
